@@ -50,9 +50,21 @@ const (
 	tNil
 	tError
 	tIgnored // a parameter the translated functions never use (the context statement of render)
+	tCode      // a Code interface value: the model's `Code`
+	tSliceCode // []Code
+	tMapCode   // Dict: map[Code]Code as pairs in iteration order
+	tTokTyp
+	tGroup    // receiver *Group: GInfo + items
+	tStmtRecv // receiver *Statement
+	tDictRecv // receiver Dict
+	tToken    // receiver token: typ + content
 )
 
-var leanTy = map[aty]string{tStr: "Str", tBool: "Bool", tInt: "Int", tDef: "Def", tFile: "FileS", tMapDef: "List (Str × Def)", tMapStr: "List (Str × Str)", tSliceStr: "List Str", tWriter: "Str", tComment: "Str", tTag: "List (Str × Str)"}
+var tokTypConsts = map[string]bool{"packageToken": true, "identifierToken": true, "qualifiedToken": true, "keywordToken": true, "operatorToken": true,
+	"delimiterToken": true, "literalToken": true, "literalRuneToken": true, "literalByteToken": true, "nullToken": true, "layoutToken": true}
+
+
+var leanTy = map[aty]string{tStr: "Str", tBool: "Bool", tInt: "Int", tDef: "Def", tFile: "FileS", tMapDef: "List (Str × Def)", tMapStr: "List (Str × Str)", tSliceStr: "List Str", tWriter: "Str", tComment: "Str", tTag: "List (Str × Str)", tCode: "Code", tSliceCode: "List Code", tMapCode: "List (Code × Code)", tTokTyp: "Go.TokTyp"}
 
 // fields of jen.File that the registry functions may touch -> (FileS field, type)
 var fileFields = map[string]struct {
@@ -71,6 +83,7 @@ type algo struct {
 	mutates     map[string]bool
 	needsFuel   map[string]bool
 	needsLib    map[string]bool
+	needsRec    map[string]bool
 	retTy       map[string]aty
 	out         map[string]string
 	failed      map[string]string
@@ -124,6 +137,10 @@ func goType(e ast.Expr) aty {
 		return tWriter
 	case "error":
 		return tError
+	case "Code":
+		return tCode
+	case "[]Code", "...Code":
+		return tSliceCode
 	case "*Statement":
 		return tIgnored
 	case "map[string]importdef":
@@ -195,6 +212,14 @@ func (a *algo) expr(e ast.Expr, env aenv) (string, aty) {
 		if x.Name == a.reservedVar {
 			return "Gen.reserved", tSliceStr
 		}
+		if tokTypConsts[x.Name] {
+			if _, shadow := env[x.Name]; !shadow {
+				return "Go.TokTyp." + x.Name, tTokTyp
+			}
+		}
+		if env[x.Name] == tDictRecv {
+			return lv(x.Name), tMapCode
+		}
 		if x.Name == a.stdVar {
 			return "Gen.stdHints", tMapStr
 		}
@@ -212,6 +237,25 @@ func (a *algo) expr(e ast.Expr, env aenv) (string, aty) {
 				bail("File field %s is outside the translated subset", x.Sel.Name)
 			}
 			return base + "." + ff.lean, ff.t
+		case tGroup:
+			switch x.Sel.Name {
+			case "name":
+				return base + ".name", tStr
+			case "open":
+				return base + ".opn", tStr
+			case "close":
+				return base + ".cls", tStr
+			case "separator":
+				return base + ".sep", tStr
+			case "multi":
+				return base + ".multi", tBool
+			case "items":
+				return base + "_items", tSliceCode
+			}
+		case tToken:
+			if x.Sel.Name == "typ" {
+				return base + "_typ", tTokTyp
+			}
 		case tComment:
 			if x.Sel.Name == "comment" {
 				return base, tStr
@@ -229,6 +273,19 @@ func (a *algo) expr(e ast.Expr, env aenv) (string, aty) {
 			}
 		}
 		bail("selector %s", nodeStr(x))
+	case *ast.StarExpr:
+		if id, ok := x.X.(*ast.Ident); ok && env[id.Name] == tStmtRecv {
+			return lv(id.Name), tSliceCode
+		}
+		bail("dereference %s", nodeStr(x))
+	case *ast.TypeAssertExpr:
+		// t.content.(string) on the token receiver
+		if sel, ok := x.X.(*ast.SelectorExpr); ok && sel.Sel.Name == "content" && x.Type != nil && nodeStr(x.Type) == "string" {
+			if id, ok := sel.X.(*ast.Ident); ok && env[id.Name] == tToken {
+				return lv(id.Name) + "_content", tStr
+			}
+		}
+		bail("type assertion %s", nodeStr(x))
 	case *ast.UnaryExpr:
 		v, t := a.expr(x.X, env)
 		if x.Op == token.NOT && t == tBool {
@@ -239,6 +296,26 @@ func (a *algo) expr(e ast.Expr, env aenv) (string, aty) {
 		}
 		bail("unary %s", nodeStr(x))
 	case *ast.BinaryExpr:
+		if (x.Op == token.EQL || x.Op == token.NEQ) && nodeStr(x.Y) == "nil" {
+			v, t := a.expr(x.X, env)
+			res := ""
+			switch t {
+			case tGroup, tStmtRecv, tDictRecv:
+				// a typed nil receiver (a nil *Group stored in a Code) is outside the model: the
+				// receiver of a translated method is a value the API built
+				res = "false"
+			case tMapCode:
+				res = "false"
+			case tCode:
+				res = "(Go.isNil " + v + ")"
+			default:
+				bail("comparison with nil: %s", nodeStr(x))
+			}
+			if x.Op == token.NEQ {
+				res = "(!" + res + ")"
+			}
+			return res, tBool
+		}
 		l, lt := a.expr(x.X, env)
 		r, rt := a.expr(x.Y, env)
 		if lt != rt {
@@ -365,7 +442,7 @@ func (a *algo) call(x *ast.CallExpr, env aenv) (string, aty) {
 	switch fun {
 	case "len":
 		v, t := a.expr(x.Args[0], env)
-		if len(x.Args) == 1 && (t == tStr || t == tSliceStr || t == tMapDef || t == tMapStr) {
+		if len(x.Args) == 1 && (t == tStr || t == tSliceStr || t == tMapDef || t == tMapStr || t == tMapCode || t == tSliceCode) {
 			return "(Int.ofNat " + v + ".length)", tInt
 		}
 	case "[]byte", "string":
@@ -445,6 +522,14 @@ func (a *algo) call(x *ast.CallExpr, env aenv) (string, aty) {
 			}
 			if env[id.Name] == tTag {
 				return a.callFnRecv("tag."+sel.Sel.Name, lv(id.Name), x, env)
+			}
+			if env[id.Name] == tGroup {
+				return a.callFnRecv("Group."+sel.Sel.Name, lv(id.Name)+" "+lv(id.Name)+"_items", x, env)
+			}
+			if env[id.Name] == tCode && sel.Sel.Name == "isNull" && len(x.Args) == 1 && nodeStr(x.Args[0]) == "f" {
+				// dynamic dispatch through the Code interface: open recursion
+				a.needsRec[a.cur] = true
+				return "(recNull f " + lv(id.Name) + ")", tBool
 			}
 		}
 	}
@@ -577,10 +662,14 @@ func (a *algo) callFnRecv(key string, recvArg string, x *ast.CallExpr, env aenv)
 		s += " fuel"
 		a.needsFuel[a.cur] = true
 	}
+	if a.needsRec[key] {
+		s += " recNull"
+		a.needsRec[a.cur] = true
+	}
 	switch {
 	case strings.HasPrefix(key, "File."):
 		s += " f"
-	case strings.HasPrefix(key, "comment."), strings.HasPrefix(key, "tag."):
+	case strings.HasPrefix(key, "comment."), strings.HasPrefix(key, "tag."), strings.HasPrefix(key, "Group."), strings.HasPrefix(key, "Statement."), strings.HasPrefix(key, "Dict."):
 		s += " " + recvArg
 	}
 	for _, v := range argv {
@@ -1420,13 +1509,25 @@ func (a *algo) rangeStmt(x *ast.RangeStmt, rest []ast.Stmt, env aenv, tail strin
 					}
 					c, _ := a.expr(is.Cond, e2)
 					lam = fmt.Sprintf("(Go.anyEntry %s (fun %s %s => %s))", coll, binder(keyName), binder(valName), c)
-				case tSliceStr:
+				case tSliceStr, tSliceCode:
 					if keyName != "_" {
 						bail("index variable in a slice search")
 					}
 					e2[valName] = tStr
+					if ct == tSliceCode {
+						e2[valName] = tCode
+					}
 					c, _ := a.expr(is.Cond, e2)
 					lam = fmt.Sprintf("(List.any %s (fun %s => %s))", coll, binder(valName), c)
+				case tMapCode:
+					if keyName != "_" {
+						e2[keyName] = tCode
+					}
+					if valName != "_" {
+						e2[valName] = tCode
+					}
+					c, _ := a.expr(is.Cond, e2)
+					lam = fmt.Sprintf("(List.any %s (fun kv => let %s := kv.1; let %s := kv.2; %s))", coll, binder(keyName), binder(valName), c)
 				default:
 					bail("range over %s", nodeStr(x.X))
 				}
@@ -1546,6 +1647,18 @@ func (a *algo) translate(key string) {
 		case strings.HasPrefix(key, "tag."):
 			env[rn] = tTag
 			params = append(params, fmt.Sprintf("(%s : List (Str × Str))", lv(rn)))
+		case strings.HasPrefix(key, "Group."):
+			env[rn] = tGroup
+			params = append(params, fmt.Sprintf("(%s : GInfo) (%s_items : List Code)", lv(rn), lv(rn)))
+		case strings.HasPrefix(key, "Statement."):
+			env[rn] = tStmtRecv
+			params = append(params, fmt.Sprintf("(%s : List Code)", lv(rn)))
+		case strings.HasPrefix(key, "Dict."):
+			env[rn] = tDictRecv
+			params = append(params, fmt.Sprintf("(%s : List (Code × Code))", lv(rn)))
+		case strings.HasPrefix(key, "token."):
+			env[rn] = tToken
+			params = append(params, fmt.Sprintf("(%s_typ : Go.TokTyp) (%s_content : Str)", lv(rn), lv(rn)))
 		default:
 			bail("receiver type")
 		}
@@ -1616,6 +1729,9 @@ func (a *algo) translate(key string) {
 	if a.needsFuel[key] {
 		sig += " (fuel : Nat)"
 	}
+	if a.needsRec[key] {
+		sig += " (recNull : FileS → Code → Bool)"
+	}
 	if strings.HasPrefix(key, "File.") {
 		sig += " (f : FileS)"
 	}
@@ -1638,10 +1754,12 @@ func indent(s string) string {
 var algoTargets = []string{".IsReservedWord", "File.isLocal", "File.isValidAlias", "File.isDotImport", "File.prefixed", ".guessAlias",
 	"File.register", "File.Anon", "File.ImportName", "File.ImportNames", "File.ImportAlias",
 	// text-producing functions without recursion through Code (tie 1b, second group)
-	"comment.render", "tag.isNull", "tag.render", "File.renderImports"}
+	"comment.render", "tag.isNull", "tag.render", "File.renderImports",
+	// null-ness (open recursion through the Code interface: `recNull`)
+	"token.isNull", "comment.isNull", "Group.isNullItems", "Group.isNull", "Statement.isNull", "Dict.isNull"}
 
 func translateAlgorithms(fns []fn, reservedVar, stdVar string) (lean string, summary string) {
-	a := &algo{fns: map[string]*ast.FuncDecl{}, reservedVar: reservedVar, stdVar: stdVar, mutates: map[string]bool{}, needsFuel: map[string]bool{}, needsLib: map[string]bool{},
+	a := &algo{fns: map[string]*ast.FuncDecl{}, reservedVar: reservedVar, stdVar: stdVar, mutates: map[string]bool{}, needsFuel: map[string]bool{}, needsLib: map[string]bool{}, needsRec: map[string]bool{},
 		retTy: map[string]aty{}, out: map[string]string{}, failed: map[string]string{}, inProgress: map[string]bool{}, regexes: map[string]string{}, writer: map[string]string{}}
 	for _, f := range fns {
 		a.fns[f.recv+"."+f.name] = f.decl
